@@ -1357,6 +1357,7 @@ func c18AesKey(r *verifh.Rng) []byte { return c18RandBytes(r, r.Pick(16, 16, 24,
 type c18CsOp struct {
 	r       *verifh.Rng
 	tol     int
+	limit   int  // the section's limitBytes
 	twoKeys bool // the section also configures fingerprint "other" (key k2)
 	method  string
 	path    string
@@ -1745,6 +1746,29 @@ func c18CsMuts() []c18CsMut {
 			o.fr = o.r.PickS("len", "len", "chunked")
 		})
 	}
+	// ---- encrypted bodies around the limit (only where the limit is small enough to build such bodies): a verified
+	// request whose ciphertext text ends one below / at / one over / far over the limit, the far-over ones built so that a
+	// cut at the limit falls on a block boundary whose last plaintext byte is a valid padding value
+	for _, cls := range []string{"one-below", "at", "one-over", "far-over-cut-on-padding", "far-over"} {
+		for _, fr := range []string{"len", "chunked", "chunked-wire"} {
+			cls, fr := cls, fr
+			add("limit-encrypted-"+cls+"-"+fr, 1, func(o *c18CsOp) {
+				o.needBody()
+				if o.limit > 1000 {
+					o.setPayload(o.payload, true)
+					o.fr = "chunked"
+					o.label = "valid-encrypted-chunked"
+					return
+				}
+				o.typ = "1"
+				o.body = c18BodyAroundLimit(o.r, o.key, o.limit, cls)
+				o.fr, o.via = strings.TrimSuffix(fr, "-wire"), ""
+				if strings.HasSuffix(fr, "-wire") {
+					o.via = "wire"
+				}
+			})
+		}
+	}
 	add("content-length-disagrees-with-body", 2, func(o *c18CsOp) {
 		o.needBody()
 		o.fr, o.via = "len", ""
@@ -1753,13 +1777,22 @@ func c18CsMuts() []c18CsMut {
 	return m
 }
 
-func c18GenCs(r *verifh.Rng, plan *c18Plan, muts []c18CsMut, weights []int) verifh.Section {
+func c18GenCs(r *verifh.Rng, plan *c18Plan, muts []c18CsMut, weights []int, forceLimit int) verifh.Section {
 	strict := 1
 	if r.Chance(1, 6) {
 		strict = 0
 	}
 	tol := r.Pick(5, 60, 3600)
-	limit := r.Pick(1<<20, 1<<20, 1<<20, 64)
+	limit := r.Pick(1<<20, 1<<20, 1<<20, 64, 128)
+	var limitMuts []int
+	if forceLimit > 0 {
+		limit, strict = forceLimit, 1
+		for i, m := range muts {
+			if strings.HasPrefix(m.name, "limit-encrypted-") {
+				limitMuts = append(limitMuts, i)
+			}
+		}
+	}
 	fps := c18H("good") + ":k1"
 	twoKeys := r.Bool()
 	if twoKeys {
@@ -1768,8 +1801,11 @@ func c18GenCs(r *verifh.Rng, plan *c18Plan, muts []c18CsMut, weights []int) veri
 	cfg := fmt.Sprintf("kind=cs strict=%d tol=%d limit=%d fps=%s", strict, tol, limit, fps)
 	var ops []string
 	nreq := r.Range(10, verifh.Scale(30, 45))
+	if n := 2 * len(limitMuts); nreq < n {
+		nreq = n
+	}
 	for i := 0; i < nreq; i++ {
-		o := &c18CsOp{r: r, tol: tol, twoKeys: twoKeys, extra: map[string]string{}}
+		o := &c18CsOp{r: r, tol: tol, limit: limit, twoKeys: twoKeys, extra: map[string]string{}}
 		o.method = r.PickS("GET", "POST", "POST", "PUT", "DELETE")
 		o.path = c18Paths[r.Intn(len(c18Paths))]
 		o.query = c18Queries[r.Intn(len(c18Queries))]
@@ -1791,7 +1827,12 @@ func c18GenCs(r *verifh.Rng, plan *c18Plan, muts []c18CsMut, weights []int) veri
 		if r.Chance(1, 8) {
 			o.via = "wire"
 		}
-		mi := plan.next(r, strict == 1, weights)
+		mi := 0
+		if len(limitMuts) > 0 && i < 2*len(limitMuts) {
+			mi = limitMuts[i%len(limitMuts)] // a small limit: every limit class under every framing
+		} else {
+			mi = plan.next(r, strict == 1, weights)
+		}
 		o.label = muts[mi].name
 		muts[mi].apply(o)
 		plain := o.plain
@@ -1835,6 +1876,75 @@ func c18GenCs(r *verifh.Rng, plan *c18Plan, muts []c18CsMut, weights []int) veri
 }
 
 // ------------------------------------------------ cryption
+
+// c18BodyAroundLimit builds the base64 text of a properly encrypted payload whose length relates to `limit` as `cls` says.
+// Line feeds (which base64.StdEncoding skips) fill up to an exact length. For "far-over-cut-on-padding" the payload is chosen
+// so that the first `limit` characters are themselves whole blocks whose last plaintext byte is a valid padding value:
+// a reader that stops at the limit without noticing would decrypt a shorter payload successfully.
+func c18BodyAroundLimit(r *verifh.Rng, key []byte, limit int, cls string) []byte {
+	fit := func(b []byte, n int) []byte {
+		for len(b) < n {
+			b = append(b, '\n')
+		}
+		return b
+	}
+	// the largest payload whose ciphertext text has at most n characters
+	within := func(n int) []byte {
+		blocks := n / 4 * 3 / 16
+		if blocks < 1 {
+			blocks = 1
+		}
+		return c18RandBytes(r, blocks*16-r.Range(1, 16))
+	}
+	switch cls {
+	case "below":
+		return c18ClientEncrypt(key, within(limit-4))
+	case "one-below":
+		return fit(c18ClientEncrypt(key, within(limit-1)), limit-1)
+	case "at":
+		return fit(c18ClientEncrypt(key, within(limit)), limit)
+	case "one-over":
+		return fit(c18ClientEncrypt(key, within(limit)), limit+1)
+	case "far-over-cut-on-padding":
+		cut := limit / 4 * 3 // bytes of ciphertext in front of the limit
+		p := c18RandBytes(r, cut+r.Range(1, 40))
+		if cut%16 == 0 && cut > 0 {
+			p[cut-1] = byte(r.Pick(1, 2, 10, 10, 13, 15, 16))
+		}
+		return c18ClientEncrypt(key, p)
+	default: // far-over
+		return c18ClientEncrypt(key, c18RandBytes(r, limit+r.Range(1, 60)))
+	}
+}
+
+// c18GenCryptLimit: one section per small limit; every limit class under every framing (declared length, chunked,
+// declared-but-short; direct and over the wire).
+func c18GenCryptLimit(r *verifh.Rng, limit int) verifh.Section {
+	key := c18AesKey(r)
+	cfg := fmt.Sprintf("kind=crypt key=%s limit=%d", c18Hex(key), limit)
+	var ops []string
+	for _, cls := range []string{"below", "one-below", "at", "one-over", "far-over-cut-on-padding", "far-over"} {
+		for _, fr := range []string{"len", "chunked", "len-wire", "chunked-wire", "short"} {
+			body := c18BodyAroundLimit(r, key, limit, cls)
+			reply := c18RandBytes(r, r.Pick(0, 1, 16, 17))
+			op := fmt.Sprintf("req body=%s reply=%s", c18Hex(body), c18Hex(reply))
+			switch fr {
+			case "len-wire", "chunked-wire":
+				op += " via=wire fr=" + strings.TrimSuffix(fr, "-wire")
+			case "short": // the declared length promises more than the body holds
+				op += fmt.Sprintf(" fr=len cl=%d", len(body)+r.Range(1, 5))
+			default:
+				op += " fr=" + fr
+			}
+			ops = append(ops, op)
+		}
+	}
+	for i := len(ops) - 1; i > 0; i-- {
+		j := r.Intn(i + 1)
+		ops[i], ops[j] = ops[j], ops[i]
+	}
+	return verifh.Section{Cfg: cfg, Ops: ops}
+}
 
 func c18GenCrypt(r *verifh.Rng, plan *c18Plan, combos [][2]int) verifh.Section {
 	key := c18AesKey(r)
@@ -1990,8 +2100,12 @@ func c18Gen(r *verifh.Rng) []verifh.Section {
 		cw[i] = m.w
 	}
 	cplan := c18NewPlan(r.Fork(), len(cm))
-	for i := verifh.Scale(40, 300); i > 0; i-- {
-		secs = append(secs, c18GenCs(r.Fork(), cplan, cm, cw))
+	for i, n := 0, verifh.Scale(40, 300); i < n; i++ {
+		force := 0
+		if i < 2 {
+			force = []int{64, 128}[i]
+		}
+		secs = append(secs, c18GenCs(r.Fork(), cplan, cm, cw, force))
 	}
 	var combos [][2]int
 	for _, n := range []int{0, 1, 15, 16, 17, 32, 33} {
@@ -2002,6 +2116,9 @@ func c18Gen(r *verifh.Rng) []verifh.Section {
 	kplan := c18NewPlan(r.Fork(), len(combos))
 	for i := verifh.Scale(20, 200); i > 0; i-- {
 		secs = append(secs, c18GenCrypt(r.Fork(), kplan, combos))
+	}
+	for _, limit := range []int{64, 128, 48, 65} {
+		secs = append(secs, c18GenCryptLimit(r.Fork(), limit))
 	}
 	secs = append(secs, c18GenText(r.Fork()))
 	return secs
